@@ -799,11 +799,11 @@ def gen_compare(L, K, rng):
 
 # ---------------------------------------------------------------- references, iterators, algorithms (C11)
 def can_assign(L):
-    return all(p.kind != VARYING or p.ty != TTRK for p in L)
+    return all(p.kind != VARYING or p.ty not in (TTRK, TTRKMA, TTRKCA) for p in L)
 
 
 def can_swap(L):
-    return all(p.kind != VARYING or p.ty not in (TTRK, TTRKC, TBYTE) for p in L)
+    return all(p.kind != VARYING or p.ty not in (TTRK, TTRKC, TBYTE, TTRKMA) for p in L)
 
 
 def gen_proxy(L, K, rng):
@@ -852,7 +852,7 @@ def gen_proxy(L, K, rng):
             src = g.slots[b].elems[j]
             g.slots[a].elems[i] = [[list(o) for o in f] for f in src]
             if form == 2 and not (a == b and i == j):
-                g.slots[b].elems[j] = [[[238] * p.size for _ in f] if p.ty == TTRK else f for f, p in zip(src, L)]
+                g.slots[b].elems[j] = [[[238] * p.size for _ in f] if p.ty in (TTRK, TTRKMA) else f for f, p in zip(src, L)]
             g.lines.append("refassign %d %d %d %d %d" % (a, i, b, j, form))
             g.stat("refassign-" + ["const", "lvalue", "move", "iterator"][form] + ("-self" if a == b and i == j else ""))
         elif r < 0.40 and cs:
@@ -863,7 +863,7 @@ def gen_proxy(L, K, rng):
             g.stat("refswap" + ("-self" if a == b and i == j else ""))
         elif r < 0.58:
             i = rng.randrange(na)
-            ks = [k for k, p in enumerate(L) if p.ty != TTRK and g.slots[a].elems[i][k] and
+            ks = [k for k, p in enumerate(L) if p.ty not in (TTRK, TTRKMA, TTRKCA) and g.slots[a].elems[i][k] and
                   not (p.kind == PLAIN and k + 1 < len(L) and L[k + 1].kind == VARYING)]
             if not ks:
                 continue
@@ -955,7 +955,7 @@ def gen_elem(L, K, rng, moved_targets=False):
         return g.finish(), g.stats
     E = [None] * 4          # dict(t, aid, null)
     shape = lambda t: [len(f) for f in t]
-    scrib = lambda t, ctor=False: [[[238] * p.size for _ in f] if p.ty in ((TTRK, TTRKC) if ctor else (TTRK,)) else f for f, p in zip(t, L)]
+    scrib = lambda t, ctor=False: [[[238] * p.size for _ in f] if p.ty in ((TTRK, TTRKC) if ctor else (TTRK, TTRKMA)) else f for f, p in zip(t, L)]
     aeq = lambda a, b: bool(K[3]) or a == b
     fixed_path = not has_varying(L) and (not K[0] or K[3])
 
@@ -1088,7 +1088,7 @@ def gen_elem(L, K, rng, moved_targets=False):
             s = rng.choice(vs)
             v = g.slots[s]
             i = rng.randrange(len(v.elems))
-            ks = [k for k, p in enumerate(L) if p.ty != TTRK and v.elems[i][k] and
+            ks = [k for k, p in enumerate(L) if p.ty not in (TTRK, TTRKMA, TTRKCA) and v.elems[i][k] and
                   not (p.kind == PLAIN and k + 1 < len(L) and L[k + 1].kind == VARYING)]
             if ks:
                 k = rng.choice(ks)
